@@ -387,6 +387,26 @@ func ruleC08Gates(r *Run, p *Program, rule string) {
 			r.check(okv, rule, funcKey(f)+":corrupted-only-by-crc", p.Pos(instrPos(ret)), "a record is declared corrupted only when the stored and the computed checksum differ", "the segment iterator can declare a record corrupted without a checksum mismatch (e.g. on a header pattern): valid records are rejected and the rest of the segment is cut off by recovery")
 		}
 	}
+	// the truncation is decided by the iterator's error alone: nothing else (the position of the segment, a flag, ...)
+	// lets a damaged tail bypass it
+	if trunc != nil && truncSite != nil && truncSite.Parent() == g {
+		isIterErr := func(v ssa.Value) bool {
+			for _, s := range sources(v) {
+				if call, idx := callResult(s); call != nil && idx == 1 && calleeKey(&call.Call) == "(*pogreb.segmentIterator).next" {
+					return true
+				}
+			}
+			return false
+		}
+		if !skipsOnlyFrame(r, p, rule, funcKey(g)+":truncate-unconditional", g, truncSite, func(c *Cond) bool {
+			if _, ok := c.holdsEq(); !ok || c.X == nil || c.Y == nil {
+				return false
+			}
+			return isIterErr(c.X) || isIterErr(c.Y)
+		}, "a condition other than the segment iterator's error lets a damaged tail (io.EOF / io.ErrUnexpectedEOF / errCorrupted) bypass the truncation: for such a segment the error is returned instead and the recovering Open fails on every restart") {
+			r.ok(rule, funcKey(g)+":truncate-unconditional", p.Pos(trunc.Pos()), "whether a segment's tail is truncated depends only on the error its iterator returned", true)
+		}
+	}
 	// after a truncation the iterator goes on with the next segment
 	if trunc != nil {
 		if ts, ok := truncSite.(*ssa.Call); ok {
